@@ -267,17 +267,17 @@ func Finish(meta PropertyMeta, tier string, seed int, reports []*Report, extra m
 		"rule": "one evaluation = one rule instance (obligation) keyed property/rule@function:construct, evaluated on the " +
 			"type-checked SSA form of /repo's current working tree; non-trivial = the instance involves at least one non-constant " +
 			"program construct (floors and constant-table rows are trivial); distinct = distinct keys",
-		"samples":          samples,
-		"trusted_base":     meta.Trusted,
-		"checker_cmd":      "/verif/bin/spgcheck check -prop " + meta.ID + " -tier " + tier,
-		"configurations":   configs,
-		"instance_counts":  counts,
-		"analysed_files":   files,
-		"ssa_functions":    nfuncs,
-		"notes":            notes,
-		"exhaustive":       false,
-		"fatal":            fatal,
-		"all_obligations":  compact(all),
+		"samples":         samples,
+		"trusted_base":    meta.Trusted,
+		"checker_cmd":     "/verif/bin/spgcheck check -prop " + meta.ID + " -tier " + tier,
+		"configurations":  configs,
+		"instance_counts": counts,
+		"analysed_files":  files,
+		"ssa_functions":   nfuncs,
+		"notes":           notes,
+		"exhaustive":      false,
+		"fatal":           fatal,
+		"all_obligations": compact(all),
 	}
 	for k, v := range extra {
 		cov[k] = v
